@@ -96,7 +96,9 @@ func HarnessC11CRDs() {
 	for i := 0; i < nVersions; i++ {
 		xrd.Spec.Versions = append(xrd.Spec.Versions, v1.CompositeResourceDefinitionVersion{
 			Name:          []string{"v1", "v2"}[i],
-			Served:        i == refIdx || zz.Bool("served"+string(rune('0'+i))),
+			// (the referenceable version need not be served: the CRD's storage
+			// version is the referenceable one either way)
+			Served:        zz.Bool("served" + string(rune('0'+i))),
 			Referenceable: i == refIdx,
 			Schema:        &v1.CompositeResourceValidation{OpenAPIV3Schema: zzSchema(k0, k1, s0, req, maxLen, hasMaxLen)},
 		})
